@@ -126,6 +126,26 @@ theorem C02_totals (ls : List (Params × (Nat → List TagEv))) (N : Nat)
     simp only [List.map_cons, List.sum_cons]
     omega
 
+/-- program totals as the summary files report them: *rate-weighted* volumes.  Each leak carries its
+own rate `x.2.2` (volume = days × rate × 86.4, the common factor 86.4 dropped): over any list of
+persistent repairable leaks, each with its own tag schedule,
+Σ rate·emitted + Σ rate·mitigated = Σ rate·(no-LDAR emitted).  (Non-repairable leaks are added in
+`C02_totals_all`, Props/C03.lean, via `C03_nonrepairable`.) -/
+theorem C02_totals_weighted (ls : List (Params × (Nat → List TagEv) × Int)) (N : Nat)
+    (h : ∀ x ∈ ls, x.1.repairable = true ∧ x.1.intermittent = false) :
+    (ls.map (fun x => x.2.2 * emitDays x.1 (run x.1 x.2.1 N))).sum
+      + (ls.map (fun x => x.2.2 * mitDays x.1 (run x.1 x.2.1 N) (summaryEndArg N))).sum
+      = (ls.map (fun x => x.2.2 * emitDays x.1 (baseline x.1 N))).sum := by
+  induction ls with
+  | nil => simp
+  | cons x xs ih =>
+    have hx := h x (by simp)
+    have := (C02_partial x.1 x.2.1 N hx.1 hx.2).1
+    have ih' := ih (fun y hy => h y (by simp [hy]))
+    simp only [List.map_cons, List.sum_cons]
+    rw [← this, Int.mul_add]
+    omega
+
 /-- the same with detection-only events of screening methods mixed in (the day loop the simulator
 really runs): they change nothing -/
 theorem C02_calendar_days_E (p : Params) (ev : Nat → List Ev) (N : Nat) (hr : p.repairable = true) :
@@ -167,6 +187,19 @@ example :
     let ev : Nat → List TagEv := fun d => if d = 8 then [{ company := 1, trd := 0 }] else []
     (run p ev 12).activeDays = 4 ∧ mitDays p (run p ev 12) (summaryEndArg 12) = 3 ∧
     (baseline p 12).activeDays = 7 := by
+  decide +kernel
+
+/-- non-vacuity of the weighted totals: two leaks with rates 3 and 5, one repaired by the program -/
+example :
+    let p1 : Params := { start := 0, nrd := 10, repairDelay := 0, repairable := true,
+                         intermittent := false, activeDur := 1, inactiveDur := 0 }
+    let p2 : Params := { start := -2, nrd := 6, repairDelay := 1, repairable := true,
+                         intermittent := false, activeDur := 1, inactiveDur := 0 }
+    let ev : Nat → List TagEv := fun d => if d = 2 then [{ company := 1, trd := 0 }] else []
+    3 * emitDays p1 (run p1 ev 12) + 5 * emitDays p2 (run p2 noEvents 12)
+      + (3 * mitDays p1 (run p1 ev 12) (summaryEndArg 12) + 5 * mitDays p2 (run p2 noEvents 12) (summaryEndArg 12))
+      = 3 * emitDays p1 (baseline p1 12) + 5 * emitDays p2 (baseline p2 12)
+    ∧ mitDays p1 (run p1 ev 12) (summaryEndArg 12) = 7 := by
   decide +kernel
 
 end LdarModel.Emission
